@@ -1188,6 +1188,11 @@ def none_sentinel_truth(prog: Program) -> RuleResult:
                 call = node.value
                 if dotted(call.func) == "next" and len(call.args) == 2 and isinstance(call.args[1], ast.Constant) and call.args[1].value is None:
                     sentinels[node.targets[0].id] = node
+        # a parameter annotated Optional[...] is a value-or-None as well: `if not left` also refuses 0, '' and ()
+        for arg in fn.args.args + fn.args.kwonlyargs:  # type: ignore[attr-defined]
+            ann = ast.unparse(arg.annotation) if arg.annotation is not None else ""
+            if ann.startswith("Optional[") and "bool" not in ann and not any(w in ann for w in ("List", "Sequence", "Set", "Dict", "Iterable", "Mapping", "Tree")):
+                sentinels.setdefault(arg.arg, ast.Assign(targets=[ast.Name(id=arg.arg, ctx=ast.Store())], value=ast.Name(id=f"<parameter {arg.arg}: {ann}>", ctx=ast.Load())))
         for name, origin in sentinels.items():
             n += 1
             construct = f"{key}:{qual}/sentinel[{name}]"
